@@ -39,7 +39,7 @@ def obligations(tier):
                   bounds=f"every list of {4 if q else 5} instruction nodes over text / break / italics on / italics off / repositioning"))
     obs.append(ch("chars_solid_block", "harness.C05_scc", timeout=T, functions=F, known="C05-solid-block-dropped", bounds="basic code 0x7F in both byte positions"))
     if not q:
-        obs.append(ch("two_rows", "harness.C05_scc", timeout=T * 3, functions=F, exhaustive=True, bounds="14112 two-row programs (rows x gaps x indents x italics x doubling)"))
+        obs.append(ch("two_rows", "harness.C05_scc", timeout=T, functions=F, exhaustive=True, bounds="3528 two-row programs (first row 1/6/12 x gaps 1-3 x indents 0-24 each x italics x doubling)"))
     return obs
 
 
